@@ -59,6 +59,8 @@ def _ren_term(t, lo, bo, cmap):
             f["res"] = cmap[f["res"]]
         if f.get("path") in cmap:
             f["path"] = cmap[f["path"]]
+        if isinstance(f.get("op"), dict):
+            f["op"] = _ren_op(f["op"], lo)      # the callee operand of an indirect call
     elif k == "assert":
         t["c"] = _ren_op(t["c"], lo)
         t["ops"] = [_ren_op(o, lo) for o in t.get("ops", [])]
@@ -125,11 +127,159 @@ def inline_new_helpers(j, known):
             for _, t in _calls_of(b):
                 if t["f"].get("res") in done and b["path"] not in done:
                     still.add(t["f"].get("res"))
+        still |= (_fn_value_refs(bodies) & done)      # still handed around as a value somewhere (.and_then(Self::helper))
         gone = done - still
         j["bodies"] = bodies = [b for b in bodies if not (b["path"] in gone or any(b["path"].startswith(g + "::{closure#") for g in gone))]
         by_path = {b["path"]: b for b in bodies if b["promoted"] is None}
         inlined_any += sorted(done)
     return inlined_any
+
+
+def _split_top(s, sep=","):
+    out, depth, cur = [], 0, ""
+    for ch in s:
+        if ch in "<([":
+            depth += 1
+        elif ch in ">)]":
+            depth -= 1
+        if ch == sep and depth == 0:
+            out.append(cur.strip())
+            cur = ""
+        else:
+            cur += ch
+    if cur.strip():
+        out.append(cur.strip())
+    return out
+
+
+def _unify(p, c, binds):
+    """bind the bare generic parameter names occurring in the helper's parameter type `p` to the corresponding parts of the
+    caller's argument type `c` (string-level, conservative: anything unexpected binds nothing)"""
+    p = re.sub(r"'\w+ ?", "", p).strip()
+    c = re.sub(r"'\w+ ?", "", c).strip()
+    if p.startswith("impl ") and p != c:
+        binds[p] = c if binds.get(p, c) == c else None       # an anonymous `impl Trait` parameter: the whole spelling
+        return
+    if re.fullmatch(r"[A-Z][A-Za-z0-9]*", p) and p not in ("Self",):
+        if binds.get(p, c) == c:
+            binds[p] = c
+        else:
+            binds[p] = None         # conflicting evidence: do not substitute this one
+        return
+    for pre in ("&mut ", "&", "*const ", "*mut "):
+        if p.startswith(pre) and c.startswith(pre):
+            return _unify(p[len(pre):], c[len(pre):], binds)
+    if p.startswith("[") and p.endswith("]") and c.startswith("[") and c.endswith("]"):
+        pp, cc = _split_top(p[1:-1], ";"), _split_top(c[1:-1], ";")
+        if len(pp) == len(cc):
+            for x, y in zip(pp, cc):
+                _unify(x, y, binds)
+        return
+    if p.startswith("(") and p.endswith(")") and c.startswith("(") and c.endswith(")"):
+        pp, cc = _split_top(p[1:-1]), _split_top(c[1:-1])
+        if len(pp) == len(cc):
+            for x, y in zip(pp, cc):
+                _unify(x, y, binds)
+        return
+    mp, mc = re.fullmatch(r"([\w:]+)<(.*)>", p), re.fullmatch(r"([\w:]+)<(.*)>", c)
+    if mp and mc and mp.group(1) == mc.group(1):
+        pp, cc = _split_top(mp.group(2)), _split_top(mc.group(2))
+        if len(pp) == len(cc):
+            for x, y in zip(pp, cc):
+                _unify(x, y, binds)
+
+
+def _subst_types(x, binds):
+    """replace whole-word generic parameter names in every type-carrying string of the spliced copy"""
+    if not binds:
+        return x
+    words = {k: v for k, v in binds.items() if not k.startswith("impl ")}
+    impls = {k: v for k, v in binds.items() if k.startswith("impl ")}
+    pat = re.compile(r"(?<![\w:])(" + "|".join(re.escape(k) for k in sorted(words, key=len, reverse=True)) + r")(?![\w])(?!::)") if words else None
+
+    def fix(sv):
+        for k, v in impls.items():
+            sv = sv.replace(k, v)
+        return pat.sub(lambda m: words[m.group(1)], sv) if pat else sv
+    if isinstance(x, dict):
+        for k, v in list(x.items()):
+            if k in ("ty", "dty", "from", "indirect") and isinstance(v, str):
+                x[k] = fix(v)
+            elif k in ("aty", "args") and isinstance(v, list):
+                x[k] = [fix(e) if isinstance(e, str) else e for e in v]
+            elif isinstance(v, (dict, list)):
+                _subst_types(v, binds)
+    elif isinstance(x, list):
+        for v in x:
+            _subst_types(v, binds)
+    return x
+
+
+def devirtualise(j):
+    """an indirect call whose callee operand is, in this very body, only ever a copy of one function item (a helper that
+    took `fn(..)` and was inlined at a call site passing `Type::method`) becomes the direct call it is"""
+    n = 0
+    for b in j["bodies"]:
+        if b["promoted"] is not None:
+            continue
+        defs = {}
+        for bl in b["blocks"]:
+            for st in bl["s"]:
+                if not st["d"]["p"]:
+                    defs.setdefault(st["d"]["l"], []).append(st["rv"])
+            t = bl["t"]
+            if t and t["t"] == "call" and not t["d"]["p"]:
+                defs.setdefault(t["d"]["l"], []).append(None)
+        for bl in b["blocks"]:
+            t = bl["t"]
+            if not (t and t["t"] == "call" and t["f"].get("path") is None and isinstance(t["f"].get("op"), dict)):
+                continue
+            o = t["f"]["op"]
+            fn = None
+            for _ in range(6):
+                k = o.get("k")
+                if isinstance(k, dict) and isinstance(k.get("fn"), dict):
+                    fn = k["fn"]
+                    break
+                pl = o.get("c") or o.get("m")
+                if not isinstance(pl, dict) or pl["p"] or pl["l"] <= b["argc"]:
+                    break
+                ds = defs.get(pl["l"], [])
+                if len(ds) != 1 or ds[0] is None or ds[0].get("r") not in ("use", "cast") or not isinstance(ds[0].get("o"), dict):
+                    break
+                o = ds[0]["o"]          # (a cast here is the fn item -> fn pointer coercion)
+            if fn is not None and (fn.get("res") or fn.get("path")):
+                keep_op = t["f"].get("op")
+                t["f"] = dict(copy.deepcopy(fn), devirtualised=True, op=keep_op)
+                n += 1
+    return n
+
+
+def _fn_value_refs(bodies):
+    """paths of functions that occur as function-item constants in operands"""
+    out = set()
+
+    def walk(x):
+        if isinstance(x, dict):
+            k = x.get("k")
+            if isinstance(k, dict) and isinstance(k.get("fn"), dict):
+                r = k["fn"].get("res") or k["fn"].get("path")
+                if r:
+                    out.add(r)
+            for v in x.values():
+                if isinstance(v, (dict, list)):
+                    walk(v)
+        elif isinstance(x, list):
+            for v in x:
+                walk(v)
+    for b in bodies:
+        for bl in b["blocks"]:
+            for st in bl["s"]:
+                walk(st["rv"])
+            t = bl["t"]
+            if t and t["t"] == "call":
+                walk(t["a"])
+    return out
 
 
 def _splice(j, caller, bi, t, h, by_path):
@@ -185,6 +335,39 @@ def _splice(j, caller, bi, t, h, by_path):
     for i, a in enumerate(t["a"]):
         blk["s"].append({"d": {"l": lo + 1 + i, "p": []}, "rv": {"r": "use", "o": copy.deepcopy(a)}, "sp": t.get("sp")})
     blk["t"] = {"t": "goto", "to": bo}
+    # type parameters of the helper are known types at this call site: bind them from (parameter type, argument type) pairs
+    binds = {}
+    for i in range(min(h["argc"], len(t.get("aty") or []))):
+        _unify(h["locals"][i + 1]["ty"], t["aty"][i], binds)
+    binds = {k: v for k, v in binds.items() if v and v != k}
+    if binds:
+        _subst_types(caller["blocks"][bo:], binds)
+        _subst_types(caller["locals"][lo:], binds)
+    # a const generic of the helper is a known number at this call site (helper::<4>(..)): substitute it in the spliced copy
+    # (only when unambiguous: one integer among the call's generic arguments, one const-parameter name in the helper)
+    ints = [a for a in (t["f"].get("args") or []) if re.fullmatch(r"-?\d+", a or "")]
+    if len(ints) == 1:
+        names = set()
+
+        def consts(x, fix=None):
+            if isinstance(x, dict):
+                k = x.get("k")
+                if isinstance(k, dict) and k.get("v") is None and not k.get("fn") and not k.get("cl") and not k.get("static") and \
+                        re.fullmatch(r"[A-Z][A-Z0-9_]*", k.get("s") or "") and re.fullmatch(r"[iu](8|16|32|64|128|size)", k.get("ty") or ""):
+                    names.add(k["s"])
+                    if fix is not None:
+                        k["v"] = fix
+                        k["s"] = "%s_%s" % (fix, k["ty"])
+                for v in x.values():
+                    if isinstance(v, (dict, list)):
+                        consts(v, fix)
+            elif isinstance(x, list):
+                for v in x:
+                    consts(v, fix)
+        new_blocks = caller["blocks"][bo:]
+        consts(new_blocks)
+        if len(names) == 1:
+            consts(new_blocks, int(ints[0]))
 
 
 def restore_names(j, inventory):
@@ -233,7 +416,67 @@ def restore_names(j, inventory):
                     t["cls"] = [(old + c[len(newp):]) if (c == newp or c.startswith(newp + "::{closure#")) else c for c in t.get("cls", [])]
         new.remove(best)
         done.append("%s <- %s" % (old, newp))
+    # second pass: an item that MOVED (a local struct / fn lifted to module level or the reverse): same item name, same
+    # trait and method, same arity, largely the same callees - only the enclosing path differs
+    still = [p for p in missing if not any(d.startswith(p + " <- ") for d in done)]
+    for old in still:
+        rec = inventory[old]
+        k_old = _item_key(old)
+        if k_old is None:
+            continue
+        cands = []
+        for b in new:
+            if b["argc"] != rec["argc"] or _item_key(b["path"]) != k_old:
+                continue
+            callees = sorted((t["f"].get("res") or t["f"].get("path") or "?") for _, t in _calls_of(b))
+            sa, sb = set(callees), set(rec["callees"])
+            sim = (len(sa & sb) / len(sa | sb)) if (sa | sb) else 1.0
+            if sim >= 0.5:
+                cands.append(b)
+        others = [p for p in still if p != old and _item_key(p) == k_old]
+        if len(cands) != 1 or others:
+            continue
+        best = cands[0]
+        newp = best["path"]
+        _rename_fn(j, newp, old)
+        new.remove(best)
+        done.append("%s <- %s (moved)" % (old, newp))
     return done
+
+
+def _item_key(path):
+    """(self type's own name, trait, method) for `<T as Trait>::m`, (type, method) for `a::T::m`; None when too generic"""
+    def last_ident(ty):
+        ty = re.sub(r"<[^<>]*>", "", re.sub(r"<[^<>]*>", "", re.sub(r"<[^<>]*>", "", ty)))
+        ty = ty.replace("&mut ", "").replace("&", "").strip()
+        return ty.rsplit("::", 1)[-1]
+    m = re.match(r"^<(.+) as (.+)>::(\w+)$", path)
+    if m:
+        return ("impl", last_ident(m.group(1)), last_ident(m.group(2)), m.group(3))
+    segs = re.sub(r"::<[^<>]*(<[^<>]*>[^<>]*)*>", "", path).split("::")
+    if len(segs) >= 3 and segs[-2][:1].isupper():
+        return ("inherent", segs[-2], segs[-1])
+    return None
+
+
+def _rename_fn(j, newp, old):
+    for b in j["bodies"]:
+        if b["path"] == newp or b["path"].startswith(newp + "::{closure#"):
+            b["path"] = old + b["path"][len(newp):]
+        if b.get("parent") and (b["parent"] == newp or b["parent"].startswith(newp + "::{closure#")):
+            b["parent"] = old + b["parent"][len(newp):]
+        for bl in b["blocks"]:
+            for s in bl["s"]:
+                rv = s["rv"]
+                if rv.get("r") == "agg" and isinstance(rv.get("adt"), str) and rv["adt"].startswith(newp + "::{closure#"):
+                    rv["adt"] = old + rv["adt"][len(newp):]
+            t = bl["t"]
+            if t and t["t"] == "call":
+                f = t["f"]
+                for k in ("res", "path"):
+                    if f.get(k) == newp:
+                        f[k] = old
+                t["cls"] = [(old + c[len(newp):]) if (c == newp or c.startswith(newp + "::{closure#")) else c for c in t.get("cls", [])]
 
 
 def restore_field_names(j, verif_dir):
@@ -321,7 +564,12 @@ def apply(j, verif_dir):
     try:
         renamed = restore_names(j, inventory) if isinstance(inventory, dict) else []
         renamed += restore_field_names(j, verif_dir)
-        return renamed + inline_new_helpers(j, known)
+        out = renamed + inline_new_helpers(j, known)
+        if out:
+            nd = devirtualise(j)
+            if nd:
+                out.append("devirtualised %d indirect call(s)" % nd)
+        return out
     except Exception as e:          # never let view normalisation break a check
         j["bodies"] = backup
         return ["inliner skipped: %r" % (e,)]
